@@ -3,7 +3,7 @@
    deviation F3 and for the rule before the F4 fix and Print Assumptions.
    Model: Factory/Model.v (+ Factory/Scenario.v for concrete histories); proofs: Factory/Conserve.v. *)
 From Coq Require Import List NArith Bool Permutation.
-From RV Require Import Factory.Model Factory.Scenario Factory.Oracle Factory.Conserve Factory.ConserveRet Factory.ConserveTerm Factory.RouteCouple.
+From RV Require Import Factory.Model Factory.Scenario Factory.Oracle Factory.Conserve Factory.ConserveRet Factory.ConserveTerm Factory.RouteCouple Factory.OracleSound.
 Import ListNotations.
 Local Open Scope N_scope.
 
@@ -112,7 +112,41 @@ Theorem C13_terminal_every_job_fated : forall c n d rls ls,
   fstatus w = FStopped -> Permutation (fated_ids w) (sent_ids ls).
 Proof. exact terminal_every_job_fated. Qed.
 
+(* (11) ORACLE SOUNDNESS, per-job clauses of check_C13 (what lib/c13.py evaluates on the
+   implementation's log): on the model's own event log -- of every label sequence with distinct job
+   ids, in any order of presentation, and in particular on the concatenated per-op lists of every
+   scenario -- none of ATwoStarts, ATwoFates, AEndNoStart, ARetNoDisc fires. So a report of one of
+   these on an implementation history can never be an artefact of the oracle: the model itself
+   would have to be rejected. (job_anomalies = unknown-job clause ++ job_core ++ acc-and-ret clause.) *)
+Theorem C13_oracle_sound_job_core : forall c n d rls ls flat j,
+  NoDup (sent_ids ls) ->
+  Permutation flat (evs (run c (init c n d rls) ls)) ->
+  job_core flat j = [].
+Proof. exact job_core_sound. Qed.
+
+Theorem C13_oracle_sound_job_core_scenario : forall c n d rls os j,
+  NoDup (sent_ids (labels_of c n d rls os)) ->
+  job_core (concat (scenario_events c n d rls os)) j = [].
+Proof. exact job_core_sound_scenario. Qed.
+
+(* the scenario runner is a model run, and its per-op lists are the log of that run *)
+Theorem C13_scenario_is_a_run : forall c n d rls os,
+  concat (scenario_events c n d rls os) = rev (evs (scenario_final c n d rls os))
+  /\ scenario_final c n d rls os = run c (init c n d rls) (labels_of c n d rls os).
+Proof. exact scenario_log. Qed.
+
+Theorem C13_end_has_start : forall c n d rls ls i w' a',
+  In (EEnd i w' a') (evs (run c (init c n d rls) ls)) -> started_in i (evs (run c (init c n d rls) ls)).
+Proof. exact end_has_start. Qed.
+
+(* OPEN: soundness of the remaining clauses of check_C13 on model runs -- AUnknownJob and AAccAndRet
+   (per job) and ASilentLoss (the in-progress scan; by construction it fires on the model exactly for
+   drops with a cause other than CDeath-of-the-in-progress-job, i.e. F3/F9 histories and CInbox). *)
+
 (* ---- pins *)
+Check (C13_oracle_sound_job_core_scenario : forall c n d rls os j,
+  NoDup (sent_ids (labels_of c n d rls os)) ->
+  job_core (concat (scenario_events c n d rls os)) j = []).
 Check (C13_places_partition : forall c n d rls ls,
   Permutation (places (run c (init c n d rls) ls)) (sent_ids ls)).
 Check (C13_never_runs_twice : forall c n d rls ls,
@@ -192,3 +226,7 @@ Print Assumptions C13_one_per_death.
 Print Assumptions C13_returned_is_discarded.
 Print Assumptions C13_terminal.
 Print Assumptions C13_terminal_every_job_fated.
+Print Assumptions C13_oracle_sound_job_core.
+Print Assumptions C13_oracle_sound_job_core_scenario.
+Print Assumptions C13_scenario_is_a_run.
+Print Assumptions C13_end_has_start.
